@@ -1144,7 +1144,11 @@ class RPCInterface:
             in state ``SYNCHRONIZATION`` or has no Master instance to perform the request.
         """
         self._check_from_distribution()
-        self.supvisors.fsm.on_restart()
+        try:
+            self.supvisors.fsm.on_restart()
+        except RuntimeError as exc:
+            # the Master may have just been lost (the FSM will go back to ELECTION at next evaluation)
+            self._raise(SupvisorsFaults.BAD_SUPVISORS_STATE.value, 'restart', str(exc))
         return True
 
     def shutdown(self) -> bool:
@@ -1156,7 +1160,11 @@ class RPCInterface:
             in state ``SYNCHRONIZATION`` or has no Master instance to perform the request.
         """
         self._check_from_distribution()
-        self.supvisors.fsm.on_shutdown()
+        try:
+            self.supvisors.fsm.on_shutdown()
+        except ValueError as exc:
+            # the Master may have just been lost (the FSM will go back to ELECTION at next evaluation)
+            self._raise(SupvisorsFaults.BAD_SUPVISORS_STATE.value, 'shutdown', str(exc))
         return True
 
     def end_sync(self, master: str = '') -> bool:
